@@ -8,6 +8,8 @@ build, so each theorem is re-proved against the current frame numbering, varint 
 encryption-level table and limits.
 -/
 import Uquic.Proofs.WireReject
+import Uquic.Proofs.WireLongHeader
+import Uquic.Proofs.WireTP
 
 namespace Uquic.Props.C08
 open Uquic.Model.Wire Uquic.Model.Wire.Varint Uquic.Spec.WireMon Uquic.Proofs.Wire
@@ -194,5 +196,75 @@ theorem enc_level_table :
       isAllowedAtEncLevel t 3 = some (decide (¬(t = 2 ∨ t = 3 ∨ t = 6 ∨ t = 7 ∨ t = 0x19 ∨ t = 0x1b ∨ t = 0x1c)))
       ∧ isAllowedAtEncLevel t 4 = some true) :=
   ⟨enc_level_table_initial_handshake, enc_level_table_app⟩
+
+/-! ## packet headers -/
+
+open Uquic.Model.Wire.Hdr in
+/-- short header: `ParseShortHeader(AppendShortHeader(…) ‖ payload)` returns the packet number
+    (truncated to its length), its length and the key phase with valid reserved bits, and consumes
+    exactly `ShortHeaderLen` bytes -/
+theorem short_header_roundtrip (cid : Bytes) (pn pnLen kp : Nat) (rest : Bytes)
+    (hl : 1 ≤ pnLen ∧ pnLen ≤ 4) (hk : kp = keyPhaseZero ∨ kp = keyPhaseOne) :
+    ∃ b, appendShortHeader cid pn pnLen kp = some b ∧ b.length = shortHeaderLen cid pnLen ∧
+      parseShortHeader (b ++ rest) cid.length =
+        .ok { n := shortHeaderLen cid pnLen, pn := pn % 256 ^ pnLen, pnLen := pnLen, keyPhase := kp, reservedOK := true } :=
+  shortHeader_roundtrip cid pn pnLen kp rest hl hk
+
+open Uquic.Model.Wire.Hdr in
+/-- long header (Initial, 0-RTT, Handshake; QUIC v1 and v2): what `ExtendedHeader.Append` writes has
+    exactly `GetLength` bytes, `parseHeader` returns every field and `ParsedLen`, and `ParseExtended`
+    returns the packet number (truncated to its length) with valid reserved bits -/
+theorem long_header_roundtrip (h : Header) (pn pnLen : Nat) (rest : Bytes)
+    (ht : h.ptype = ptInitial ∨ h.ptype = pt0RTT ∨ h.ptype = ptHandshake)
+    (hv : h.version = version1 ∨ h.version = version2)
+    (hd : h.dest.length ≤ 20) (hs : h.src.length ≤ 20)
+    (htok : if h.ptype = ptInitial then h.token.length ≤ maxVarInt8 else h.token = [])
+    (hlen : h.length ≤ 16383) (hpn : 1 ≤ pnLen ∧ pnLen ≤ 4) :
+    ∃ b first, appendLong h pn pnLen h.version = .ok b ∧ b.length = getLength h pnLen ∧
+      parseHeader (b ++ rest) = ({ h with typeByte := first, parsedLen := b.length - pnLen }, none) ∧
+      parseExtended (b.length - pnLen) (b ++ rest) =
+        some (.ok { pn := pn % 256 ^ pnLen, pnLen := pnLen, parsedLen := b.length, reservedOK := true }) :=
+  longHeader_roundtrip h pn pnLen rest ht hv hd hs htok hlen hpn
+
+example : ∃ h : Uquic.Model.Wire.Hdr.Header, h.ptype = Uquic.Model.Wire.Hdr.ptInitial ∧ h.version = Uquic.Model.Wire.Hdr.version2
+    ∧ h.token.length = 3 ∧ h.length = 1200 :=
+  ⟨{ ptype := 1, version := 0x6b3343cf, token := [1, 2, 3], length := 1200 }, by decide, by decide, rfl, rfl⟩
+
+open Uquic.Model.Wire.Hdr in
+/-- Version Negotiation: parsing what `ComposeVersionNegotiation` wrote gives both connection IDs
+    (up to 255 bytes, RFC 8999) and the version list back, for every random first byte -/
+theorem version_negotiation_roundtrip (randFirst : Nat) (dest src : Bytes) (vs : List Nat)
+    (hd : dest.length < 256) (hs : src.length < 256) (hne : vs ≠ []) (hv : ∀ v ∈ vs, v < 2 ^ 32) :
+    parseVersionNegotiation (composeVersionNegotiation randFirst dest src vs) = .ok (dest, src, vs) :=
+  versionNegotiation_roundtrip randFirst dest src vs hd hs hne hv
+
+/-! ## transport parameters -/
+
+open Uquic.Model.Wire.TP in
+/-- stream counts above 2^60, ack_delay_exponent above 20, max_ack_delay ≥ 2^14,
+    active_connection_id_limit below 2 and max_udp_payload_size below 1200 are rejected -/
+theorem tp_reject_out_of_range (p : Params) {pre : Bytes} {v : Nat} (hd : Decodes pre v) (r : Bytes) :
+    (v > 2 ^ 60 → readNumeric p (pre ++ r) idStreamsBidi pre.length = .error .streamsTooLarge
+                 ∧ readNumeric p (pre ++ r) idStreamsUni pre.length = .error .streamsTooLarge) ∧
+    (v > 20 → readNumeric p (pre ++ r) idAckDelayExponent pre.length = .error .ackDelayExponent) ∧
+    (v ≥ 2 ^ 14 → readNumeric p (pre ++ r) idMaxAckDelay pre.length = .error .maxAckDelay) ∧
+    (v < 2 → readNumeric p (pre ++ r) idActiveConnectionIDLimit pre.length = .error .activeCIDLimit) ∧
+    (v < 1200 → readNumeric p (pre ++ r) idMaxUDPPayloadSize pre.length = .error .udpPayload) :=
+  tp_reject_numeric p hd r
+
+open Uquic.Model.Wire.TP in
+/-- parameters a client must not send (original_destination_connection_id, stateless_reset_token,
+    preferred_address, retry_source_connection_id) are rejected as soon as the loop meets them -/
+theorem tp_reject_perspective_forbidden {pid plen : Bytes} {id len : Nat} (hid : Decodes pid id) (hlen : Decodes plen len)
+    (hforb : id = idODCID ∨ id = idSRT ∨ id = idPreferredAddress ∨ id = idRSCID) (val r : Bytes) (hv : val.length = len)
+    (fuel : Nat) (st : LoopSt) :
+    unmarshalLoop perspectiveClient (fuel + 1) (pid ++ plen ++ val ++ r) st = .error .clientSent :=
+  tp_reject_client_sent hid hlen hforb val r hv fuel st
+
+open Uquic.Model.Wire.TP in
+/-- accepted transport parameters contain no duplicate and the mandatory connection IDs -/
+theorem tp_accepted_no_duplicates (b : Bytes) (sentBy : Nat) (p : Params) (h : unmarshal b sentBy false = .ok p) :
+    ∃ st : LoopSt, hasDup st.ids = false ∧ st.readISCID = true ∧ (sentBy = perspectiveServer → st.readODCID = true) :=
+  tp_unmarshal_ok b sentBy p h
 
 end Uquic.Props.C08
